@@ -583,7 +583,10 @@ def r5_own_class_and_name(ctx, rep, R='C17.R5'):
         return                     # written out in place; checked above
     gc_ = m.func('formatter.get_test_class_name')
     rr = [n for n in ast.walk(gc_.node) if isinstance(n, ast.Return)]
-    okg = len(rr) == 1 and '__module__' in norm(rr[0].value) and '__class__.__name__' in norm(rr[0].value)
+    from .common import expander
+    rtxt = norm(expander(gc_.node)(rr[0].value)) if len(rr) == 1 else ''
+    okg = len(rr) == 1 and '__module__' in rtxt and '__class__.__name__' in rtxt and \
+        rtxt.index('__module__') < rtxt.index('__class__.__name__')
     rep.check(okg, R, 'get_test_class_name = <test.__module__>.<test.__class__.__name__>',
               'the class name is computed as %s' % (norm(rr[0].value) if rr else '?'), key='own:getclass',
               func=gc_.qualname, where=ctx.where(gc_, gc_.node))
